@@ -646,12 +646,21 @@ impl Property for C07 {
         let (sys, btor2_text, source) = match shipped {
             Some((name, text, sys)) => (sys, Some(text), name),
             None => (
-                gen_system(&mut rng, msb, mib, false, |c| {
-                    c.division = false;
-                    c.init_without_next = true;
-                    c.max_outputs = 3;
-                    c.named_nodes = true;
-                }),
+                if rng.chance(1, 4) {
+                    acc.count("probe.system_with_wide_values_or_many_states", 1);
+                    gen_huge_system(&mut rng, |c| {
+                        c.init_without_next = true;
+                        c.max_outputs = 3;
+                        c.named_nodes = true;
+                    })
+                } else {
+                    gen_system(&mut rng, msb, mib, false, |c| {
+                        c.division = false;
+                        c.init_without_next = true;
+                        c.max_outputs = 3;
+                        c.named_nodes = true;
+                    })
+                },
                 None,
                 "generated".to_string(),
             ),
